@@ -77,6 +77,10 @@ ObjPtr == UNION { {Obj(f) : f \in [D -> PtrVals]} : D \in {S \in SUBSET PtrKeys 
 PtrDeep == {O1(key, Arr(t)) : key \in {"e0", "em", "k0"}, t \in TuplesUpTo({N1, N2, O1("e1", N1)}, 3)}
            \cup {Arr(<<O1(key, Arr(t))>>) : key \in {"e1", "k0"}, t \in TuplesUpTo({N1, N2}, 3)}
 
+(* objects whose keys are different spellings of integers ("1", "01", "+1" under the pointer table): anything that orders or *)
+(* compares keys numerically sees ties                                                                                      *)
+IntKeys == UNION { {Obj(f) : f \in [D -> {N1, N2}]} : D \in SUBSET {"n1", "w0", "w1"} }
+
 (* members identified by TWO keys; the same values also occur swapped across the keys *)
 K2Obj(x, y, w) == Obj([j \in {"from", "to", "w"} |-> IF j = "from" THEN x ELSE IF j = "to" THEN y ELSE w])
 K2Members == {K2Obj(x, y, w) : x \in {S0, S1}, y \in {S0, S1}, w \in {N1, N2}}
@@ -86,8 +90,11 @@ Keyed2K == {Arr(t) : t \in {u \in TuplesUpTo(K2Members, 2) : K2Unique(u)}}
 (* targets and patch documents for RFC 7386 (C12): nulls and empty objects at every depth *)
 MV0 == {N1, S0, Null, EmptyObj, Arr(<<N1>>)}
 MD1 == ObjFam(2, MV0)
+MVK == {Bool(TRUE), Bool(FALSE), Num(0), Str("")}          \* the remaining kinds of value, as patch value and as target
 MergeDocs == MV0 \cup MD1 \cup {O1("k0", d) : d \in MD1} \cup {O2("k0", d, "k1", x) : d \in MD1, x \in {N1, Null}}
              \cup {O1("k0", O1("k1", d)) : d \in ObjFam(1, MV0)} \cup {Arr(<<N1, Null>>), EmptyArr, N2}
+             \cup MVK \cup {O1("k0", x) : x \in MVK} \cup {O2("k0", x, "k1", N1) : x \in MVK} \cup {O1("k0", O1("k1", x)) : x \in MVK}
+             \cup {Arr(<<Bool(TRUE)>>)}
 
 (* merge patches / targets with several leaf members under long key paths (depth 1..7) *)
 MLeafs == {O2("k0", x, "k1", y) : x \in {N1, Null, S0}, y \in {N2, Null}} \cup
@@ -96,16 +103,19 @@ MKeyShapes == { <<"k0">>, <<"k0", "k1">>, <<"k0", "k1", "k2">>, <<"k0", "k1", "k
                 <<"k0", "k1", "k2", "k0", "k1", "k2">> }
 MergeDeep == {Wrap(n, w) : n \in MLeafs, w \in MKeyShapes}
 
-(* documents for the carrier property (C16): every string atom y0..y39 (concretised by the yaml-hostile *)
+(* documents for the carrier property (C16): every string atom y0..y41 (concretised by the yaml-hostile *)
 (* table) as root, array member, object value and object key; numbers; empty containers               *)
-YAtoms == {"y" \o ToString(i) : i \in 0..39}
+YAtoms == {"y" \o ToString(i) : i \in 0..41}
 YamlDocs ==
   UNION { {Str(y), Arr(<<Str(y), N1>>), O1("k0", Str(y)), Obj([j \in {y} |-> N1]), Arr(<<N1, Str(y)>>),
            Obj([j \in {"k0", y} |-> IF j = "k0" THEN Arr(<<Str(y)>>) ELSE Str(y)]),
            O2("k0", N1, "k1", Str(y))} : y \in YAtoms }
   \cup {Num(1000000 + i) : i \in 2..9} \cup {O1("k0", Num(1000000 + i)) : i \in 2..9} \cup {Arr(<<N1, Num(1000000 + i)>>) : i \in 2..9}
   \cup {Num(8), Num(1), Num(-20), Num(8000000), Num(0), Num(-1), Num(1000001), EmptyArr, EmptyObj, Null, Bool(TRUE), Bool(FALSE),
-        Arr(<<EmptyArr, EmptyObj, Null>>), O2("k0", EmptyObj, "k1", EmptyArr), Arr(<<Num(1), Num(12)>>), O1("k0", Null)}
+        Arr(<<EmptyArr, EmptyObj, Null>>), O2("k0", EmptyObj, "k1", EmptyArr), Arr(<<Num(1), Num(12)>>), O1("k0", Null),
+        \* several empty containers in one document (values a reader might share)
+        O2("k0", EmptyObj, "k1", EmptyObj), Arr(<<EmptyObj, EmptyObj>>), O2("k0", EmptyObj, "k1", Arr(<<EmptyObj>>)),
+        O2("k0", EmptyArr, "k1", EmptyArr), Arr(<<EmptyArr, EmptyArr>>)}
 
 (* string-to-string changes (character-level colour diff, escaping) *)
 StrDocs == ObjFam(2, {S0, S1, Str("sA"), N1}) \cup {Arr(t) : t \in TuplesUpTo({S0, S1, Str("sA")}, 2)}
@@ -113,6 +123,18 @@ StrDocs == ObjFam(2, {S0, S1, Str("sA"), N1}) \cup {Arr(t) : t \in TuplesUpTo({S
 (* merge-mode pairs whose hunks write an object that has a null member (values a merge hunk shares with b) *)
 MergeNull == {EmptyObj, O1("k1", N1), O1("k0", O2("k0", Null, "k1", N1)), O2("k0", O2("k0", Null, "k1", N1), "k1", N1),
               O1("k0", O1("k1", O2("k0", Null, "k2", S0))), O2("k0", Arr(<<Null, N1>>), "k1", O1("k0", Null))}
+
+(* every kind of JSON value (number, zero, string, empty string, true, false, null, empty and non-empty containers) as root, *)
+(* array member and object value: no differ / patcher / reader branch is a kind nobody exercised                             *)
+KindAtoms == {N1, Num(0), S0, Str(""), Bool(TRUE), Bool(FALSE), Null, EmptyArr, EmptyObj}
+Kinds == KindAtoms \cup {Arr(t) : t \in TuplesUpTo(KindAtoms, 2)} \cup ObjFam(2, KindAtoms)
+         \cup {O1("k0", O1("k1", x)) : x \in KindAtoms} \cup {O1("k0", Arr(<<x>>)) : x \in KindAtoms}
+
+(* sibling containers with same-named array children, both edited (anything cached per depth / per last path element) *)
+SibArrs == {Arr(t) : t \in TuplesUpTo({N1, N2}, 2)} \ {EmptyArr}
+Siblings == {O2("k0", O1("k2", x), "k1", O1("k2", y)) : x \in SibArrs, y \in SibArrs}
+            \cup {Arr(<<O2("id", N1, "k2", x), O2("id", N2, "k2", y)>>) : x \in SibArrs, y \in SibArrs}
+            \cup {Arr(<<Arr(<<x>>), Arr(<<y>>)>>) : x \in {Arr(<<N1, N2>>), Arr(<<N2, N1>>), Arr(<<N1>>)}, y \in {Arr(<<N1, N2>>), Arr(<<N2, N1>>), Arr(<<N2>>)}}
 
 (* type-confusable values for the equality oracle (C04) *)
 Confusable ==
